@@ -95,7 +95,7 @@ def load_program(flavour='on', with_sqlparser=False):
     root = os.path.join(WORK, 'src')
     src.add_tree(os.path.join(root, 'src'), 'src/')
     if with_sqlparser and sqlparser_src():
-        src.add_tree(sqlparser_src(), 'sqlparser/')
+        src.add_tree(sqlparser_src(), 'sqlparser/', ns='sqlparser')
     prog = Program(funcs, src)
     prog.tree_hash = th
     prog.mir_path = mir
